@@ -26,6 +26,7 @@ func ExecOne(pkg, fn string, params map[string]int64, repoDir, verifDir string) 
 	pl := sym.NewPool([]string{"z3-new", "z3"}, 60000)
 	defer pl.Close()
 	inst := run.Instance{Prop: "ADHOC", Pkg: pkg, Func: fn, Params: params}
+	inst.Opt.Sweep = os.Getenv("VP_SWEEP") != ""
 	if rook := w.Func("attacks", "RookMoves"); rook != nil && os.Getenv("VP_NOSUMMARY") == "" {
 		bishop := w.Func("attacks", "BishopMoves")
 		inst.Opt.Setup = func(x *vexec.Exec, w *run.World) {
@@ -51,7 +52,7 @@ func ExecOne(pkg, fn string, params map[string]int64, repoDir, verifDir string) 
 			fmt.Printf("   terms(incl) %8d %s\n", e.v, e.k)
 		}
 	}
-	fmt.Println("   ops:", r.OpHist)
+	fmt.Println("   sweep:", r.SweepNote)
 	for _, u := range r.Unwinds {
 		fmt.Println("   unwound:", u)
 	}
